@@ -362,6 +362,22 @@ def check_name_equals_index_slice(case):
         raise Violation(f"slice-name-vs-index:dim{d}",
                         f"img.slice({coord!r}, {XYZ[c]!r}) differs from img.slice({v}, {m}) although "
                         f"the coordinate lies in voxel layer {v} of matrix axis {m}: {why}", t)
+    # the same with integer-typed metadata (dimensions / origin given as Python ints, as in
+    # Image(arr, dimensions=[2, 3, 4])): the cut coordinate stays a float
+    ints_ok = all(float(x).is_integer() for x in spec["dimensions"]) and (
+        spec["origin"] is None or all(float(x).is_integer() for x in spec["origin"]))
+    if ints_ok:
+        spec_i = dict(spec, dimensions=[int(x) for x in spec["dimensions"]],
+                      origin=None if spec["origin"] is None else [int(x) for x in spec["origin"]])
+        img3 = gens.build_image(spec_i)
+        try:
+            got_i = np.asarray(img3.slice(coord, XYZ[c]).img)
+        except (AssertionError, IndexError, ValueError) as e:
+            raise Violation(f"slice-by-name-fails:int-metadata:dim{d}", f"integer-typed dimensions/origin: "
+                            f"img.slice({coord!r}, {XYZ[c]!r}) raised {type(e).__name__}({e})", t)
+        if got_i.shape != want.shape or not np.array_equal(got_i, want):
+            raise Violation(f"slice-name-vs-index:int-metadata:dim{d}", f"integer-typed dimensions/origin: "
+                            f"img.slice({coord!r}, {XYZ[c]!r}) is not layer {v} of matrix axis {m}", t)
     return Outcome(nontrivial=d == 3 or _distinct_extents(spec["shape"]),
                    key=[spec["shape"], spec["dimensions"], spec["origin"], spec["payload"],
                         spec["series"], c, v, case["t"], spec["pseed"]],
